@@ -145,6 +145,7 @@ func RunCase(seed uint64, idx int, p *Profile, o *Opts, st *Stats) (cr *CaseResu
 	r := NewRng(mix(seed, idx))
 	cfg := DrawConfig(r, o)
 	m := NewModel()
+	RelCache = map[string][]ecs.Relation{}
 	cr = &CaseResult{Seed: seed, Case: idx, Profile: p.Name, Config: cfg.String(), Cov: map[string]int64{}}
 	d := NewDrv("A", cfg, m, st)
 	var twin *Drv
@@ -155,6 +156,19 @@ func RunCase(seed uint64, idx int, p *Profile, o *Opts, st *Stats) (cr *CaseResu
 	case "unsafe":
 		twin = NewDrv("B(id-based)", cfg, m, twinStat)
 		twin.ForceUnsafe = true
+	case "shared":
+		// a second typed world whose component IDs differ (registration order reversed, one more filler type): it
+		// executes the same calls with the same world-independent argument objects (relation lists built by type
+		// or by index), as a program with two worlds would
+		cfgB := cfg
+		cfgB.Perm = make([]int, len(cfg.Perm))
+		for k, c := range cfg.Perm {
+			cfgB.Perm[len(cfg.Perm)-1-k] = c
+		}
+		if cfg.Fillers+u.N+cfg.Late < o.MaxComponents-1 {
+			cfgB.Fillers++
+		}
+		twin = NewDrv("B(other IDs)", cfgB, m, twinStat)
 	}
 	pp := *p
 	pp.Avoid = o.Avoid
@@ -282,7 +296,7 @@ func RunCase(seed uint64, idx int, p *Profile, o *Opts, st *Stats) (cr *CaseResu
 		if !stop {
 			d.judgeObservers(x, reg, res)
 			d.checkBatch(x)
-			if twin != nil && o.Twin == "same" {
+			if twin != nil && (o.Twin == "same" || o.Twin == "shared") {
 				twin.judgeObservers(x, reg, resB)
 				twin.checkBatch(x)
 			}
@@ -335,6 +349,20 @@ func RunCase(seed uint64, idx int, p *Profile, o *Opts, st *Stats) (cr *CaseResu
 		}
 		if m.Locks > 0 {
 			cr.Cov["locked-op"]++
+		}
+		if op.K == KOpenQuery && op.SF >= 0 && !res.Panicked {
+			for s := range m.Queries {
+				if q := &m.Queries[s]; s != op.Slot && q.Open && q.SF == op.SF && q.Cached == op.Cached {
+					cr.Cov["overlapping-queries-of-one-filter"]++
+					if len(op.QRels) == 1 && len(q.QRels) == 1 && op.QRels[0] != q.QRels[0] {
+						cr.Cov["overlapping-queries-of-one-filter-different-target"]++
+					}
+					break
+				}
+			}
+		}
+		if (op.K == KAddBatch || op.K == KRemoveBatch || op.K == KExchangeBatch || op.K == KSetRelBatch || op.K == KRemoveEntities) && op.SF >= 0 && len(op.QRels) > 0 {
+			cr.Cov["standing-filter-batch-with-targets"]++
 		}
 		if len(d.fired) > 0 {
 			cr.Cov["obs-fired"] += int64(len(d.fired))
